@@ -34,12 +34,11 @@ type Env struct {
 	GenesisFilter chainhash.Hash
 }
 
-// NewEnv creates the template under scratch (the one expensive store creation
-// of the process: 65 536 index sub-buckets).
-func NewEnv(scratch string) (*Env, error) {
+// UseEnv describes an already created template directory (child processes).
+func UseEnv(templateDir string) (*Env, error) {
 	params := &chaincfg.SimNetParams
 	e := &Env{
-		TemplateDir: filepath.Join(scratch, "template"),
+		TemplateDir: templateDir,
 		Params:      params,
 		Genesis:     params.GenesisBlock.Header,
 	}
@@ -50,6 +49,16 @@ func NewEnv(scratch string) (*Env, error) {
 		return nil, err
 	}
 	e.GenesisFilter, err = builder.MakeHeaderForFilter(f, params.GenesisBlock.Header.PrevBlock)
+	if err != nil {
+		return nil, err
+	}
+	return e, nil
+}
+
+// NewEnv creates the template under scratch (the one expensive store creation
+// of the run: 65 536 index sub-buckets).
+func NewEnv(scratch string) (*Env, error) {
+	e, err := UseEnv(filepath.Join(scratch, "template"))
 	if err != nil {
 		return nil, err
 	}
